@@ -451,6 +451,76 @@ def check_bm_struct(ctx, k):
         ctx.expect(paths, ret=1)
 
 
+FN_TAG, FN_XOR = 0x7F0000000000, 0xA5000000
+
+
+def check_bm2(ctx, k):
+    size = 1 << 32
+    b0 = ctx.sandbox_base(32, "b0", aligned=False)
+    mem0 = ctx.eng.initial_memory()
+    x = ctx.sym("x_any", 64)
+    rep = lambda v, ob: z3.If(v == 0, BV(0, 32), z3.Extract(31, 0, v - ob))
+    if k in ("k_bm_store_nested", "k_bm_load_nested"):
+        b1 = ctx.sandbox_base(32, "b1", aligned=False)
+        ctx.assume(z3.Or(z3.UGE(b0, b1 + BV(size, 64)), z3.UGE(b1, b0 + BV(size, 64))), z3.Or(z3.UGE(b0 - b1, BV(size, 64)), z3.UGE(b1 - b0, BV(size, 64))))
+        p = ctx.sym("p", 64)
+        own = [z3.And(z3.UGE(p, bb), z3.ULE(p - bb, BV(size - 16, 64))) for bb in (b0, b1)]
+        ctx.assume(z3.Or(*own))
+        ob = z3.If(own[0], b0, b1)
+        cell = lambda mem, off: decode(mem, p + BV(off, 64), 4)
+        if k == "k_bm_store_nested":
+            kk = ctx.sym("k", 32)
+            ip = ctx.sym("ip", 64)
+            ia = ctx.sym("ia", 64)
+            qq = ctx.sym("q", 64)
+            ctx.assume(z3.Or(ip == 0, ctx.in_region(ip, ob, size)), z3.Or(qq == 0, ctx.in_region(qq, ob, size)))
+            fits = z3.And(sext(ia, 128) >= -(1 << 31), sext(ia, 128) < (1 << 31))
+            paths = ctx.run(k, [b0, b1, p, kk, ip, ia, qq])
+            for q in paths:
+                if q.status == "ret":
+                    ctx.require(q, z3.And(fits, cell(q.mem, 0) == kk, cell(q.mem, 4) == rep(ip, ob), cell(q.mem, 8) == z3.Extract(31, 0, ia), cell(q.mem, 12) == rep(qq, ob)),
+                                "a whole-struct store writes the fields of a nested struct too, its pointer field encoded relative to the sandbox that owns the destination")
+                    ctx.require(q, z3.Implies(z3.Or(z3.ULT(x, p), z3.UGE(x - p, BV(16, 64))), z3.Select(q.mem, x) == z3.Select(mem0, x)), "nothing outside the 16 guest bytes changes")
+                elif q.status == "abort":
+                    ctx.require(q, z3.Not(fits), "aborts only when a field value does not fit its guest type")
+            ctx.only(paths, "ret", "abort")
+            ctx.expect(paths, ret=1, abort=1)
+        else:
+            paths = ctx.run(k, [b0, b1, p])
+            dat = lambda r: z3.If(r == 0, BV(0, 64), ob + zext(r, 64))
+            for q in paths:
+                if q.status == "ret":
+                    l1 = [e for e in q.user["log"] if e[0] == 1][0]
+                    l2 = [e for e in q.user["log"] if e[0] == 2][0]
+                    ctx.require(q, z3.And(l1[1] == sext(cell(mem0, 0), 64), l1[2] == dat(cell(mem0, 4)), l1[3] == sext(cell(mem0, 8), 64), l2[1] == dat(cell(mem0, 12))),
+                                "a whole-struct load decodes the nested struct's fields, its pointer field relative to the sandbox that owns the source")
+            ctx.only(paths, "ret")
+            ctx.expect(paths, ret=1)
+    elif k == "k_bm_store_fnptr":
+        cellp = ctx.sym("cell", 64)
+        ctx.assume(z3.UGE(cellp, b0), z3.ULE(cellp - b0, BV(size - 4, 64)))
+        fr = ctx.sym("frep", 32)
+        f = z3.If(fr == 0, BV(0, 64), BV(FN_TAG, 64) | zext(fr ^ BV(FN_XOR, 32), 64))
+        paths = ctx.run(k, [b0, cellp, f])
+        for q in paths:
+            if q.status == "ret":
+                ctx.require(q, decode(q.mem, cellp, 4) == fr, "a function pointer stored into sandbox memory is written as the backend's function representation")
+        ctx.only(paths, "ret")
+        ctx.expect(paths, ret=1)
+    else:
+        p = ctx.sym("p", 64)
+        ctx.assume(z3.Or(p == 0, ctx.in_region(p, b0, size)))
+        paths = ctx.run(k, [b0, p])
+        for q in paths:
+            if q.status == "ret":
+                fr = [e for e in (q.user.get("log") or []) if e[0] == 0x204]
+                bvx = lambda v: v if not isinstance(v, int) else BV(v, 64)
+                ctx.require(q, z3.And(q.ret == zext(rep(p, b0), 64), z3.BoolVal(len(fr) == 1), bvx(fr[0][2]) == zext(rep(p, b0), 64)) if fr else z3.BoolVal(False),
+                            "a pointer to a function-pointer slot is converted as a data pointer (offset from the base) with sandbox context, for UNSAFE_sandboxed and free")
+        ctx.only(paths, "ret")
+        ctx.expect(paths, ret=1)
+
+
 NOOP_SRC = r'''
 #include "verif_env.hpp"
 #define RLBOX_USE_STATIC_CALLS() rlbox_noop_sandbox_lookup_symbol
@@ -516,5 +586,6 @@ def jobs(tier, seed):
     out.append(Job("C07_noop", NOOP_SRC, [dict(name="noop " + k, fn=check_noop, kw=dict(k=k))
                                           for k in ("k_noop_copy_ptrarr", "k_noop_copy_intarr", "k_noop_store_ptrarr", "k_noop_copy_int43")]))
     out.append(Job("C07_BM_struct", '#include "C07_bm.inc"\n', [dict(name="BM " + k, fn=check_bm_struct, kw=dict(k=k)) for k in ("k_bm_store_struct", "k_bm_load_struct")], native=False))
+    out.append(Job("C07_BM_more", '#include "C07_bm2.inc"\n', [dict(name="BM " + k, fn=check_bm2, kw=dict(k=k)) for k in ("k_bm_store_nested", "k_bm_load_nested", "k_bm_store_fnptr", "k_bm_ctx_fnptrptr")], native=False))
     out.append(Job("C07_agg", C.PRELUDE + "using S = B32;\n" + AGG_SRC, [dict(name="B32 " + k, fn=check_agg, kw=dict(k=k)) for k in AGG]))
     return out
